@@ -13,7 +13,7 @@ CONSTANTS
   KeepLog = FALSE
   OpMenu <- MenuCluster
   EditMenu <- EditsSome
-  PreMenu <- PreBy
+  PreMenu <- PreOwn
   Objs <- AllObjs
   MenuGuard <- GuardBias
 CONSTRAINT GenExport
